@@ -1056,3 +1056,104 @@ Proof.
       [apply msg_wf_plain; cbn; [reflexivity|discriminate|discriminate|discriminate]|exact H1|exact Hx0|] end.
   eapply grows_trans; [exact G1|exact A].
 Qed.
+
+Theorem on_persist_entries_grows rw r i t r' :
+  on_persist_entries r i t = Ok r' -> LI rw r -> grows (r_log r) (r_log r').
+Proof. intros H HI. apply same_su_grows. exact (proj2 (on_persist_entries_pres rw _ _ _ _ H HI)). Qed.
+
+Theorem raft_apply_conf_change_grows rw r cc r' ocs :
+  raft_apply_conf_change r cc = Ok (r', ocs) -> LI rw r -> grows (r_log r) (r_log r').
+Proof. intros H HI. apply same_su_grows. exact (proj2 (raft_apply_conf_change_pres rw _ _ _ _ H HI)). Qed.
+
+(* C05 (1), every RawNode entry point: a node that is leader of the same term before and
+   after the call has only appended to its log *)
+Theorem exec_leader_append_only rw n o n' ot :
+  exec n o = Ok (n', ot) -> op_wf n o -> NLI rw n -> (forall m, o <> OSetStore m) ->
+  r_state (rn_raft n) = Leader -> r_state (rn_raft n') = Leader ->
+  r_term (rn_raft n') = r_term (rn_raft n) -> grows (nlog n) (nlog n').
+Proof.
+  intros H W HI Hns Hs Hs' Ht. unfold NLI in HI.
+  assert (Hstep : forall m x, step (rn_raft n) m = Ok x -> msg_wf (nlast n) m ->
+            r_state (fst x) = Leader -> r_term (fst x) = r_term (rn_raft n) ->
+            grows (nlog n) (r_log (fst x))).
+  { intros m [r1 c1] Hst Wm A B. cbn [fst] in *. exact (step_leader_append_only rw _ _ _ _ Hst Hs A B Wm HI). }
+  assert (Haa : forall rd n1 lr, advance_pre n -> rn_advance_append n rd = Ok (n1, lr) ->
+            grows (nlog n) (nlog n1) /\ NLI rw n1 /\ last_index (nlog n1) = last_index (nlog n)
+            /\ is_leader (rn_raft n1) = is_leader (rn_raft n1)).
+  { intros rd n1 lr P Ha. destruct (rn_advance_append_pres rw _ _ _ _ Ha P HI) as (A & B & _).
+    splits; auto; [apply grows_abs_eq; exact B|].
+    unfold nlog in *. rewrite (abs_last rw _ A), B. symmetry. apply (abs_last rw). exact HI. }
+  destruct o; try (exfalso; eapply Hns; reflexivity); cbn [exec op_wf] in H, W; unfold quiet, quiet1 in H;
+    inv_bind H; inversion H; subst; clear H; cbn [fst] in *.
+  - unfold rn_step, lift2 in Hx. destruct (is_local_msg (m_type m)); [inversion Hx; subst; apply grows_refl|].
+    match type of Hx with (if ?c then _ else _) = _ => destruct c end; [|inversion Hx; subst; apply grows_refl].
+    inv_bind Hx. inversion Hx; subst. cbn in *. eapply Hstep; eassumption.
+  - unfold rn_tick in Hx. inv_bind Hx. destruct x0 as [r1 b1]. inversion Hx; subst. cbn.
+    exact (tick_leader_append_only rw _ _ _ Hx0 Hs HI).
+  - unfold rn_campaign, lift2 in Hx. inv_bind Hx. inversion Hx; subst. cbn in *.
+    eapply Hstep; [exact Hx0| |exact Hs'|exact Ht].
+    unfold msg_wf. cbn. splits; try (intros E; discriminate). intros _. exact W.
+  - unfold rn_propose, lift2 in Hx. inv_bind Hx. inversion Hx; subst. cbn in *.
+    eapply Hstep; [exact Hx0| |exact Hs'|exact Ht].
+    unfold msg_wf. cbn. splits; try (intros E; discriminate). intros _. exact W.
+  - unfold rn_propose_conf_change, lift2 in Hx. inv_bind Hx. inversion Hx; subst. cbn in *.
+    eapply Hstep; [exact Hx0| |exact Hs'|exact Ht].
+    unfold msg_wf. cbn. splits; try (intros E; discriminate). intros _. exact W.
+  - unfold rn_apply_conf_change in Hx. inv_bind Hx. destruct x0 as [r1 o1]. inversion Hx; subst. cbn.
+    exact (raft_apply_conf_change_grows rw _ _ _ _ Hx0 HI).
+  - rewrite (rn_ping_log _ _ Hx). apply grows_refl.
+  - destruct x as [n1 rd]. cbn [fst]. rewrite (rn_ready_log _ _ _ Hx). apply grows_refl.
+  - destruct x as [n1 lr]. cbn [fst] in *. destruct W as [W1 W2].
+    unfold rn_advance in Hx. inv_bind Hx. destruct x as [n2 lr2]. cbn [fst snd] in Hx.
+    inv_bind Hx. inversion Hx; subst.
+    destruct (Haa _ _ _ W1 Hx0) as (G1 & A1 & L1 & _).
+    eapply grows_trans; [exact G1|].
+    unfold rn_advance_apply_to, lift in Hx1. inv_bind Hx1. inversion Hx1; subst. unfold nlog. cbn.
+    refine (proj2 (commit_apply_rel rw _ _ _ Hx2 A1 _)). intros _.
+    unfold nroom, room, nlog in *. rewrite L1. exact W2.
+  - destruct x as [n1 lr]. cbn [fst] in *. exact (proj1 (Haa _ _ _ W Hx)).
+  - unfold rn_advance_append_async in Hx. destruct (commit_ready_pres rw _ _ _ Hx W HI) as (_ & B & _).
+    apply grows_abs_eq. exact B.
+  - destruct (rn_on_persist_ready_pres rw _ _ _ Hx W HI) as (_ & S). apply same_su_grows. exact S.
+  - unfold rn_advance_apply, rn_advance_apply_to, lift in Hx. inv_bind Hx. inversion Hx; subst. unfold nlog. cbn.
+    exact (proj2 (commit_apply_rel rw _ _ _ Hx0 HI W)).
+  - unfold rn_advance_apply_to, lift in Hx. inv_bind Hx. inversion Hx; subst. unfold nlog. cbn.
+    exact (proj2 (commit_apply_rel rw _ _ _ Hx0 HI W)).
+  - unfold rn_report_unreachable in Hx. inv_bind Hx. inversion Hx; subst. cbn in *.
+    eapply Hstep; [exact Hx0| |exact Hs'|exact Ht].
+    apply msg_wf_plain; cbn; (reflexivity || discriminate).
+  - unfold rn_report_snapshot in Hx. inv_bind Hx. inversion Hx; subst. cbn in *.
+    eapply Hstep; [exact Hx0| |exact Hs'|exact Ht].
+    apply msg_wf_plain; cbn; (reflexivity || discriminate).
+  - destruct x as [n1 c]. cbn [fst]. rewrite (rn_request_snapshot_log _ _ _ Hx). apply grows_refl.
+  - unfold rn_transfer_leader in Hx. inv_bind Hx. inversion Hx; subst. cbn in *.
+    eapply Hstep; [exact Hx0| |exact Hs'|exact Ht].
+    apply msg_wf_plain; cbn; (reflexivity || discriminate).
+  - unfold rn_read_index in Hx. inv_bind Hx. inversion Hx; subst. cbn in *.
+    eapply Hstep; [exact Hx0| |exact Hs'|exact Ht].
+    apply msg_wf_plain; cbn; (reflexivity || discriminate).
+Qed.
+
+(* the storage writes: the logical log is unchanged, except that a compaction forgets a
+   prefix at or below the applied index *)
+Theorem store_write_forgets_prefix rw l st' :
+  store_write l st' -> RepInv rw l ->
+  abs (set_store l st') = abs l
+  \/ exists k, ll_ents (abs (set_store l st')) = skipn k (ll_ents (abs l))
+       /\ ll_base (abs (set_store l st')) = ll_base (abs l) + N.of_nat k
+       /\ ll_base (abs (set_store l st')) < applied l.
+Proof.
+  intros W HI. destruct W.
+  - left. exact (proj2 (write_meta_pres rw l m' H H0 H1 H2 HI)).
+  - left. exact (proj1 (proj2 (write_entries_pres rw l st' HI H H0))).
+  - left. exact (proj1 (proj2 (write_snapshot_pres rw l s st' HI H H0))).
+  - left. exact (proj1 (proj2 (write_entries_after_snapshot_pres rw l s st' HI H H0 H1))).
+  - assert (HF : RepInv false l) by (apply RepInv_close_window; [apply (RepInv_true rw); exact HI|exact H0]).
+    destruct (N.le_gt_cases ci (first_of (store l))) as [Hle|Hgt].
+    + left. rewrite (store_compact_noop false l ci HF Hle) in H4. inversion H4; subst st'.
+      replace (set_store l (store l)) with l by (destruct l; reflexivity). reflexivity.
+    + right. destruct (store_compact_ok l ci HF H Hgt H1 H2 H3) as (st2 & Hc2 & _ & Habs & _).
+      rewrite H4 in Hc2. inversion Hc2; subst st2. rewrite Habs. cbn [ll_base ll_ents].
+      exists (N.to_nat (ci - first_of (store l))). split; [reflexivity|].
+      unfold abs. rewrite H. cbn [ll_base]. pose proof (first_pos _ (ri_store rw l HI)). lia.
+Qed.
